@@ -52,7 +52,8 @@ def r1(p, rep):
         rets = [r for r in walk_no_nested(f.node) if isinstance(r, ast.Return) and isinstance(r.value, ast.Call)]
         if len(rets) != 1:
             raise AnalysisError(f"unrecognised idiom: {f.qualname} has {len(rets)} returning calls")
-        call = rets[0].value
+        # the backend call in terms of the wrapper's own parameters (a shared module-level helper is looked through)
+        call = common.backend_call_of(p, f)[1] or rets[0].value
         probs = forwarded(f, call)
         rep.add("C07.R1", f"{f.qualname}:forwards", f.loc, not probs, "all parameters forwarded" if not probs else f"einx.{f.name} does not forward its arguments faithfully: {probs} - the short form (e.g. keepdims=True, a size keyword) is silently ignored for this operation only")
     g = p.func("rearrange", "frontend.removed_ops")
@@ -138,8 +139,13 @@ def r4(p, rep):
                 st = node
                 while st is not None and not isinstance(st, ast.stmt):
                     st = getattr(st, "_parent", None)
-                # the popped element becomes (part of) the output expression
-                if not (isinstance(st, (ast.Assign, ast.Return)) and "__deepcopy__" in norm(st)):
+                # an element is taken out of a *set* (an arbitrary one when there are several): the candidates
+                recv = node.func.value
+                if not isinstance(recv, ast.Name):
+                    continue
+                defs = [a.value for a in walk_no_nested(f.node) if isinstance(a, ast.Assign) and any(isinstance(t, ast.Name) and t.id == recv.id for t in a.targets)]
+                is_set = bool(defs) and all(isinstance(d, (ast.Set, ast.SetComp)) or (isinstance(d, ast.Call) and norm(d.func) in ("set", "frozenset")) for d in defs)
+                if not is_set or not isinstance(st, (ast.Assign, ast.Return)):
                     continue
                 n += 1
                 coll = norm(node.func.value)
@@ -206,23 +212,21 @@ def r6(p, rep):
     rep.rule("C07.R6", "keepdims is implemented by one rewrite of the description (brackets wrapped in parentheses)", "T-DER [S]", floor=1)
     m = p.module("adapter.einx_from_namedtensor")
     hits = []
+    # the rewrite: a FlattenedAxis is created for a Brackets node, and this happens exactly under `keepdims`
     for f in p.funcs.values():
         if f.module is not m:
             continue
         for n in walk_no_nested(f.node):
-            if isinstance(n, ast.If) and norm(n.test) in ("keepdims", "keepdims is True", "keepdims == True"):
-                hits.append((f, n))
+            if isinstance(n, ast.Call) and "FlattenedAxis" in norm(n.func):
+                facts = common.lexical_facts(f, n)
+                texts = [(norm(t), pol) for t, pol in facts]
+                if any(t in ("keepdims", "keepdims is True", "keepdims == True") and pol for t, pol in texts):
+                    hits.append((f, n, texts))
     if not hits:
-        raise AnalysisError("unrecognised idiom: no `if keepdims:` rewrite in einx_from_namedtensor")
-    for f, n in hits:
-        body = " ".join(norm(s) for s in n.body)
-        # functions the branch refers to by name (the replacement callback may live at module level)
-        for x in [y for st in n.body for y in ast.walk(st) if isinstance(y, ast.Name)]:
-            for g in p.funcs.values():
-                if g.module is m and g.name == x.id and (g.parent is None or g.parent is f):
-                    body += " " + " ".join(norm(st) for st in g.node.body)
-        ok = "FlattenedAxis" in body and "Brackets" in body
-        rep.add("C07.R6", f"{f.qualname}:keepdims-rewrite", f"{m.rel}:{n.lineno}", ok, "keepdims=True wraps each bracket into a flattened axis `([...])`" if ok else f"keepdims branch does `{body[:80]}`")
+        raise AnalysisError("unrecognised idiom: no FlattenedAxis rewrite under `keepdims` in einx_from_namedtensor")
+    for f, n, texts in hits:
+        ok = any("Brackets" in t and pol for t, pol in texts)
+        rep.add("C07.R6", f"{f.qualname}:keepdims-rewrite", f"{m.rel}:{n.lineno}", ok, "keepdims=True wraps each bracket into a flattened axis `([...])`" if ok else f"under keepdims a FlattenedAxis is created for something that is not a Brackets node (guards {texts[:4]})")
 
 
 def r7(p, rep):
